@@ -81,6 +81,34 @@ def ob_typing(ctx):
     return True
 
 
+def ob_characterize(ctx):
+    """the kit-level typing entry point (AbstractPart.characterize) types every spelling of a plasmid alike"""
+    from .c05 import user_family
+
+    st = ctx.stack
+    P = ctx.P
+    n = P["n"]
+    B = user_family(st, P["role"], P["enzyme"])
+    r = ctx.mk.seq("r", n, "ACGT")
+    r2 = recase(ctx, "case", r, n)
+
+    def typed(data, ident):
+        try:
+            return B.characterize(st.record.CircularRecord(st.Seq(data), id=ident))
+        except RuntimeError:
+            return None
+
+    a, b = typed(r, "u"), typed(r2, "m")
+    ctx.observe("types", [type(a).__name__, type(b).__name__])
+    ctx.require(type(a) is type(b), "characterize-depends-on-case")
+    ctx.witness("typed" if a is not None else "untyped")
+    if a is not None:
+        ctx.require(eq_upto_case(a.overhang_start(), b.overhang_start()), "overhang_start-depends-on-case")
+        ctx.require(eq_upto_case(a.overhang_end(), b.overhang_end()), "overhang_end-depends-on-case")
+        ctx.require(eq_upto_case(a.target_sequence().seq, b.target_sequence().seq), "target-depends-on-case")
+    return True
+
+
 def _illegal(st, ent):
     try:
         ent._match
@@ -149,6 +177,11 @@ def obligations(tier, seed):
         obs.append(Ob("typing generic vector over %s n=%d (room for a third site in the placeholder)" % (e, n), ob_typing,
                       dict(src="generic", role="vector", enzyme=e, n=n, third=True), samples=3, cost=n ** 3 * 2,
                       expect_witness=("illegal-site", "no-illegal-site"), group="third-site " + e))
+    for role in tier_pick(tier, ["module"], ["module", "vector"]):
+        F = fixed_letters(generic_class(rst, role, "BsaI").structure())
+        obs.append(Ob("characterize user family %s over BsaI n=%d under every spelling" % (role, F + 1), ob_characterize,
+                      dict(role=role, enzyme="BsaI", n=F + 1), samples=3, cost=4 * (F + 1) ** 3, group="characterize",
+                      expect_witness=("typed", "untyped")))
     for m in range(1, tier_pick(tier, 3, 4) + 1):
         obs.append(Ob("assembly with mixed-case overhangs m=%d" % m, ob_assembly, dict(m=m), samples=10, cost=30 ** m,
                       expect_witness=("product",)))
